@@ -15,6 +15,8 @@ inductive Cmd where
   | lookupTime (k : Nat) (ms : Nat)
   | lookupBad (k : Nat)
   | noId (verb : Nat)                          -- stop / search / … without a parsable id
+  | fs (k : Nat)                               -- file-system request number k of the harness table
+  | pluginCmd (k : Nat)                        -- plugin command (no plugin is loaded: always refused)
   | junk
 deriving Repr
 
@@ -94,6 +96,10 @@ def Srv.step (s : Srv) (files : List RMsg) : Cmd → Srv × Reply
     | _, _ => (s, .err)
   | .lookupBad _ => (s, .err)
   | .noId _ => (s, .err)
+  -- requests 4,5,6,9 of the table name an existing directory / file / archive with a known command: answered `ok:`
+  -- (also when the operation itself fails, e.g. readDirectory on a file); malformed or unknown requests: `err:`
+  | .fs k => (s, if k == 4 || k == 5 || k == 6 || k == 9 then .ok "fs" else .err)
+  | .pluginCmd _ => (s, .err)
   | .junk => (s, .unknown)
 
 def Srv.run (files : List RMsg) : Srv → List Cmd → List Reply × Srv
